@@ -551,6 +551,7 @@ def defaults(ctx, R):
 
 
 def run(ctx):
+    _wiring(ctx)
     ctx.rule('R18.1', 'getters / setters return / assign the field they name')
     ctx.floor('R18.1', getters(ctx, 'R18.1'), 47)
     ctx.rule('R18.2', 'delegation: same-named (aliased) method of the wrapped value, wrapped value as receiver')
@@ -563,3 +564,10 @@ def run(ctx):
     ctx.floor('R18.4', transmutes(ctx, 'R18.4'), 10)
     ctx.rule('R18.5', 'default arguments equal the documented table and their Rust counterparts')
     ctx.floor('R18.5', defaults(ctx, 'R18.5'), 30)
+
+
+def _wiring(ctx):
+    """name-agreement wiring of the configuration values this property depends on (rules/wiring.py)"""
+    import wiring
+    ctx.rule('R18.6', 'configuration plumbing: same-named fields / parameters / setters / call arguments are not crossed')
+    ctx.floor('R18.6', wiring.run(ctx, 'R18.6', {'xc', 'yc', 'angle', 'aspect', 'height', 'confidence', 'left', 'top', 'width', 'shards', 'history_length', 'max_idle_epochs', 'method', 'min_confidence', 'position_weight', 'velocity_weight', 'scene_id', 'custom_object_id'}), 150)
